@@ -1,7 +1,7 @@
-SPECIFICATION FaultSpec
+SPECIFICATION ReplaySpec
 CONSTANTS
- Classes <- FaultClasses
- HashedClasses <- FaultClasses
+ Classes <- AllClasses
+ HashedClasses <- AllClasses
  VizHashed = TRUE
  FlagOverwritesConfig = FALSE
  EventsHashed = TRUE
@@ -11,12 +11,12 @@ CONSTANTS
  CacheLooksAtFiles = TRUE
  CacheSavedLast = TRUE
  CacheDroppedFirst = TRUE
- Drivers <- BuildOnly
+ Drivers <- CliOnly
  BuildCleansOnEmpty = TRUE
  BuildProbes = TRUE
- MaxEnv = 1
- MaxRuns = 3
- MaxFaults = 1
-CONSTRAINT FaultConstraint
+ MaxEnv = 0
+ MaxRuns = 6
+ MaxFaults = 0
+CONSTRAINT ReplayConstraint
 INVARIANT EmitHist
 CHECK_DEADLOCK FALSE
